@@ -1,6 +1,8 @@
 package main
 
 import (
+	ctypes "github.com/lidofinance/dc4bc/client/types"
+	"github.com/lidofinance/dc4bc/fsm/types/requests"
 	"bytes"
 	"fmt"
 	"strings"
@@ -17,6 +19,66 @@ func init() {
 func scenarioC02(c *Ctx) {
 	fail := func(kind, what string, rep map[string]interface{}) {
 		c.Fail(Failure{Property: "C02", Kind: kind, Signature: map[string]interface{}{"kind": kind}, What: what, Replay: rep})
+	}
+	// (A) the round FSM under deviating key announcements (other key, other polynomial, any position):
+	// exhaustive exploration, every edge compared with the model
+	for _, cf := range [][2]int{{2, 2}, {3, 2}} {
+		n, t := cf[0], cf[1]
+		exploreFrom(initialDump("round-1"), alphabet(n, t, true, "dkg"), 100000, func(srcProj string, src []byte, ev Ev, o StepObs) {
+			if !strings.HasPrefix(ev.Kind, "master") {
+				return
+			}
+			c.Case("fsm/"+ev.Kind+"/"+o.Class, o.Class == "ok", "fsm "+srcProj+" | "+ev.Line(), o.Line())
+			if o.Class != "ok" {
+				return
+			}
+			bd, ad := decodeDump(src), decodeDump(o.DumpOut)
+			after := abstractOf(ad)
+			rep := map[string]interface{}{"dump": srcProj, "event": ev.Line(), "observed": o.Line()}
+			keys := map[string]bool{}
+			for _, k := range after.Master {
+				if k != "" {
+					keys[k] = true
+				}
+			}
+			cancelled := isCancelledDkg(after.State) // by error, or by timeout for a late announcement
+			if len(keys) > 1 && !cancelled {
+				fail("different-keys-not-cancelled", "two different announced group keys did not cancel the round", rep)
+			}
+			if req, ok := ev.Req.val.(requests.DKGProposalMasterKeyConfirmationRequest); ok && bd.Payload.DKGProposalPayload != nil {
+				prev := bd.Payload.DKGProposalPayload.PubPolyBz
+				if len(prev) > 0 && !bytes.Equal(prev, req.PubPolyBz) && !cancelled {
+					fail("different-polynomials-not-cancelled", "an announcement carrying a public polynomial different from the one already announced did not cancel the round", rep)
+				}
+			}
+		})
+	}
+	// (B) a storage fault on one airgapped machine exactly when it has to store its key share: the round
+	// must not become signing-ready while that machine holds no share
+	{
+		cl := NewCluster(newEnvDir(c), 3, 2, "c02-fault")
+		cl.Propose(0)
+		closed := false
+		cl.RunToQuiescence(func(cands []int) int { return 0 }, func(i int, o *ctypes.Operation) bool {
+			if i == 0 && string(o.Type) == "state_dkg_master_key_await_confirmations" && !closed {
+				cl.Machines[0].VerifClose()
+				closed = true
+			}
+			return true
+		})
+		ready := false
+		for i := range cl.Nodes {
+			if strings.Contains(cl.RoundState(i), "stage_signing_idle") {
+				ready = true
+			}
+		}
+		cl.Machines[0] = openMachine(cl.MDirs[0], cl.Password, "", false)
+		krs, _ := cl.Machines[0].GetBLSKeyrings()
+		if ready && krs[cl.Round] == nil {
+			fail("ready-without-share", "the round became signing-ready although one airgapped machine failed to store its key share", map[string]interface{}{"fault": "database closed before the master-key operation of machine 0"})
+		}
+		c.Case("storage-fault", true, "skip c02-fault", "skip c02-fault")
+		cl.Close()
 	}
 	type cfg struct{ n, t int }
 	cfgs := []cfg{{2, 2}, {3, 2}, {4, 3}, {5, 2}}
